@@ -281,7 +281,7 @@ def main(argv=None):
     lines = [c.line for c in cases]
     impl = run_impl_par(drv, lines, getattr(mod, "ENV", None))
     if model:
-        mlines = [c.line.lstrip("!") for c in cases]
+        mlines = [re.sub(r"^!(\d+!)?", "", c.line) for c in cases]
         mo, merr2 = run_model_par(model, mlines)
         if len(mo) != len(mlines):
             print(f"[verif] MACHINERY ERROR: model driver returned {len(mo)} lines for {len(mlines)}: {merr2[-500:]}", file=sys.stderr)
